@@ -259,6 +259,8 @@ def r4(ctx):
     from . import apifw
     apifw.check_forwarder(ctx, "C15.R4", "doc_set_download_policy", "SetDownloadPolicyRequest", ["set_download_policy(req.doc_id,req.policy)"], "Ok(SetDownloadPolicyResponse)")
     apifw.check_forwarder(ctx, "C15.R4", "doc_get_download_policy", "GetDownloadPolicyRequest", ["get_download_policy(req.doc_id)"], "Ok(GetDownloadPolicyResponse(result-of-get_download_policy))")
+    apifw.check_client(ctx, "C15.R4", "api::Doc::set_download_policy", "SetDownloadPolicyRequest")
+    apifw.check_client(ctx, "C15.R4", "api::Doc::get_download_policy", "GetDownloadPolicyRequest")
     ctx.floor("C15.R4", 4)
 
 
